@@ -5,7 +5,7 @@ namespace Ecal.Pool
 /-- workers that will look at the queue (and the kill counter) again before they sleep and are not
     busy with a task: each of them can take a queued task without waiting for any task to finish -/
 def awake (f : Cls → Nat) : Nat :=
-  f .head + f .chkT + f .chkF + f .noTask + f .idleReg + f .hasL + f .readQT + f .woken + f .unlocking + f .unreg
+  f .head + f .chkT + f .chkF + f .noTask + f .idleReg + f .hasL + f .readQT + f .readKT + f .woken + f .unlocking + f .unreg
 
 /-- workers that decided to sleep -/
 def asleep (f : Cls → Nat) : Nat := f .willWait + f .waiting
@@ -25,14 +25,17 @@ structure CInv (s : CState) : Prop where
   rq : 0 < s.cnt .readQF → s.queue ≤ s.pushed
   /-- kill request and a sleeper → the broadcast of that SetWorkerCount is still to come -/
   k : 0 < s.kill → 0 < asleep s.cnt → 0 < s.swcPend + s.swcL
+  /-- a worker that read "workerKill = 0" under L (kill-first order) while a kill request stands: that
+      SetWorkerCount still has to take L for its broadcast -/
+  rk : 0 < s.cnt .readKT → 0 < s.kill → 0 < s.swcPend + s.swcL
 
 theorem cinv_init : CInv cinit := by
   constructor <;> simp [cinit, holders, asleep]
 
 set_option maxHeartbeats 3200000 in
 theorem cinv_step {s s' : CState} {e : CEvent} (hi : CInv s) (h : cstep s e = some s') : CInv s' := by
-  obtain ⟨hx, hq, hrq, hk⟩ := hi
-  simp only [holders, awake, asleep, CState.inflight] at hx hq hrq hk
+  obtain ⟨hx, hq, hrq, hk, hrk⟩ := hi
+  simp only [holders, awake, asleep, CState.inflight] at hx hq hrq hk hrk
   cases e with
   | popNone ok =>
     cases ok <;> simp [cstep, CState.mv, clockFree, holders] at h <;> obtain ⟨_, _, rfl⟩ := h <;>
@@ -57,6 +60,12 @@ theorem cinv_step {s s' : CState} {e : CEvent} (hi : CInv s) (h : cstep s e = so
         constructor <;> simp [holders, awake, asleep, CState.inflight] <;> omega
       · simp at h; subst h
         constructor <;> simp [holders, awake, asleep, CState.inflight] <;> omega
+  | readKillFirst =>
+    by_cases hk0 : s.kill = 0 <;> simp [cstep, CState.mv, hk0] at h <;> obtain ⟨_, rfl⟩ := h <;>
+      constructor <;> simp [move, holders, awake, asleep, CState.inflight, hk0] <;> omega
+  | readQSecond =>
+    by_cases hq0 : s.queue = 0 <;> simp [cstep, CState.mv, hq0] at h <;> obtain ⟨_, rfl⟩ := h <;>
+      constructor <;> simp [move, holders, awake, asleep, CState.inflight, hq0] <;> omega
   | readQ =>
     simp only [cstep] at h
     split at h <;> simp [CState.mv] at h <;> obtain ⟨_, rfl⟩ := h <;>
@@ -155,6 +164,12 @@ theorem cresize_step {s s' : CState} {c : Nat} {e : CEvent} (hi : CResize c s) (
     simp [cstep, CState.mv] at h
     obtain ⟨_, _, rfl⟩ := h
     refine ⟨by simp; omega, ?_⟩; simp [clive, move]; omega
+  | readKillFirst =>
+    by_cases hk0 : s.kill = 0 <;> simp [cstep, CState.mv, hk0] at h <;> obtain ⟨_, rfl⟩ := h <;>
+      refine ⟨by first | exact hk | (simp [hk0]), ?_⟩ <;> simp [clive, move, hk0] <;> omega
+  | readQSecond =>
+    by_cases hq0 : s.queue = 0 <;> simp [cstep, CState.mv, hq0] at h <;> obtain ⟨_, rfl⟩ := h <;>
+      refine ⟨hk, ?_⟩ <;> simp [clive, move] <;> omega
   | readQ =>
     simp only [cstep] at h
     split at h <;> simp [CState.mv] at h <;> obtain ⟨_, rfl⟩ := h <;>
@@ -195,7 +210,7 @@ def CEvent.isPop : CEvent → Bool
     of the calls in flight -/
 def cmu (s : CState) : Nat :=
   25 * s.cnt .run + 24 * s.cnt .drained + 23 * s.cnt .noTask + 22 * s.cnt .idleReg + 21 * s.cnt .readQF
-  + 20 * s.cnt .willWait + 19 * s.cnt .waiting + 18 * s.cnt .woken + 17 * s.cnt .hasL + 16 * s.cnt .readQT
+  + 20 * s.cnt .willWait + 19 * s.cnt .waiting + 18 * s.cnt .woken + 17 * s.cnt .hasL + 16 * s.cnt .readQT + 16 * s.cnt .readKT
   + 6 * s.cnt .unlocking + 5 * s.cnt .unreg + 4 * s.cnt .head + 3 * s.cnt .chkT + 3 * s.cnt .chkF
   + s.cnt .exiting + 2 * s.pushed + s.adderL + 2 * s.swcPend + s.swcL
 
@@ -217,6 +232,13 @@ theorem cmu_step {s s' : CState} {e : CEvent} (h : cstep s e = some s') (hi : e.
   | drainExit =>
     by_cases hj : s.kill = -1 <;> simp [cstep, CState.mv, hj] at h <;> obtain ⟨_, rfl⟩ := h <;>
       simp [cmu, move] <;> omega
+  | readKillFirst =>
+    by_cases hk0 : s.kill = 0 <;> simp [cstep, CState.mv, hk0] at h <;> obtain ⟨_, rfl⟩ := h <;>
+      simp [cmu, move] <;> omega
+  | readQSecond =>
+    have hq0 : s.queue ≠ 0 := by omega
+    simp [cstep, CState.mv, hq0] at h; obtain ⟨_, rfl⟩ := h
+    simp [cmu, move]; omega
   | readQ =>
     simp only [cstep] at h
     split at h <;> simp [CState.mv] at h <;> obtain ⟨_, rfl⟩ := h <;> simp [cmu, move] <;> omega
@@ -241,7 +263,7 @@ theorem cmu_step {s s' : CState} {e : CEvent} (h : cstep s e = some s') (hi : e.
 /-- distance of the pool from "all tasks processed, all workers gone" while workerKill = -1: every
     queued task costs a full worker round, every worker its remaining steps to the exit -/
 def cmuJ (s : CState) : Nat :=
-  40 * s.queue + 31 * s.cnt .run + 30 * s.cnt .chkT + 29 * s.cnt .noTask + 28 * s.cnt .idleReg + 27 * s.cnt .willWait
+  40 * s.queue + 31 * s.cnt .run + 30 * s.cnt .chkT + 29 * s.cnt .noTask + 28 * s.cnt .idleReg + 28 * s.cnt .readKT + 27 * s.cnt .willWait
   + 26 * s.cnt .waiting + 25 * s.cnt .woken + 24 * s.cnt .hasL + 23 * s.cnt .readQT + 23 * s.cnt .readQF
   + 9 * s.cnt .unlocking + 8 * s.cnt .unreg + 7 * s.cnt .head + 6 * s.cnt .chkF + 5 * s.cnt .drained
   + 4 * s.cnt .exiting + 2 * s.pushed + s.adderL + 2 * s.swcPend + s.swcL
@@ -271,6 +293,12 @@ theorem cmuJ_step {s s' : CState} {e : CEvent} (h : cstep s e = some s') (hi : e
     simp [cstep, CState.mv, hk] at h
     obtain ⟨_, rfl⟩ := h
     refine ⟨?_, by first | exact hk | rfl⟩; simp [cmuJ, move]; omega
+  | readKillFirst =>
+    simp [cstep, CState.mv, hk] at h; obtain ⟨_, rfl⟩ := h
+    refine ⟨?_, by first | exact hk | rfl⟩; simp [cmuJ, move]; omega
+  | readQSecond =>
+    by_cases hq0 : s.queue = 0 <;> simp [cstep, CState.mv, hq0] at h <;> obtain ⟨_, rfl⟩ := h <;>
+      refine ⟨?_, by first | exact hk | rfl⟩ <;> simp [cmuJ, move] <;> omega
   | readQ =>
     simp only [cstep] at h
     split at h <;> simp [CState.mv] at h <;> obtain ⟨_, rfl⟩ := h <;>
@@ -309,7 +337,7 @@ def CEvent.isKillExit : CEvent → Bool
     kill check (`killPass` is disabled), so every worker only moves towards the loop head, where it takes
     a request -/
 def cmuK (s : CState) : Nat :=
-  34 * s.cnt .chkF + 33 * s.cnt .drained + 33 * s.cnt .chkT + 32 * s.cnt .run + 31 * s.cnt .noTask + 30 * s.cnt .idleReg
+  34 * s.cnt .chkF + 33 * s.cnt .drained + 33 * s.cnt .chkT + 32 * s.cnt .run + 31 * s.cnt .noTask + 30 * s.cnt .idleReg + 30 * s.cnt .readKT
   + 29 * s.cnt .willWait + 28 * s.cnt .waiting + 27 * s.cnt .woken + 26 * s.cnt .hasL + 25 * s.cnt .readQT
   + 25 * s.cnt .readQF + 9 * s.cnt .unlocking + 8 * s.cnt .unreg + 7 * s.cnt .head + 4 * s.cnt .exiting
   + 2 * s.pushed + s.adderL + 2 * s.swcPend + s.swcL
@@ -338,6 +366,12 @@ theorem cmuK_step {s s' : CState} {e : CEvent} (h : cstep s e = some s') (hi : e
     simp [cstep, CState.mv, hk1] at h
     obtain ⟨_, rfl⟩ := h
     refine ⟨?_, rfl⟩; simp [cmuK, move]; omega
+  | readKillFirst =>
+    simp [cstep, CState.mv, hk0] at h; obtain ⟨_, rfl⟩ := h
+    refine ⟨?_, rfl⟩; simp [cmuK, move]; omega
+  | readQSecond =>
+    by_cases hq0 : s.queue = 0 <;> simp [cstep, CState.mv, hq0] at h <;> obtain ⟨_, rfl⟩ := h <;>
+      refine ⟨?_, rfl⟩ <;> simp [cmuK, move] <;> omega
   | readQ =>
     simp only [cstep] at h
     split at h <;> simp [CState.mv] at h <;> obtain ⟨_, rfl⟩ := h <;>
